@@ -38,11 +38,19 @@ theorem shutdown_waits_for_all :
 theorem every_listener_registers :
     serveRegisters = true ∧ listenAndServeNotThroughServe = [] ∧ before "mu.Unlock" "srv.Serve" serveEvents = true := by decide
 
-/-- `tcp.Server.Shutdown`: close the listeners, wait for the context, close the connections. -/
+/-- `tcp.Server.Shutdown`: close the listeners, wait for the context, close the connections — and nothing else:
+the event list of the body is pinned exactly, so there is no further call, channel receive or `Wait` that
+could block after the deadline (the model's tcp contract returns *at* the deadline whatever the handlers are
+doing, e.g. a handler still inside `net.DialTimeout`). The two helpers only lock, close and unlock. -/
 theorem tcp_shutdown_order :
     before "s.closeListeners" "<-ctx.Done()" tcpShutdownEvents = true ∧
     before "<-ctx.Done()" "s.closeConns" tcpShutdownEvents = true ∧
     tcpCloseListenersEvents.contains "l.Close" = true ∧ tcpCloseConnsEvents.contains "c.Close" = true := by decide
+
+theorem tcp_shutdown_nothing_blocks_after_deadline :
+    tcpShutdownEvents = ["s.closeListeners", "<-ctx.Done()", "ctx.Done", "s.closeConns"] ∧
+    tcpCloseListenersEvents = ["s.mu.Lock", "l.Close", "s.mu.Unlock"] ∧
+    tcpCloseConnsEvents = ["s.mu.Lock", "c.Close", "s.mu.Unlock"] := by decide
 
 /-- `gRPCServer.Shutdown` looks at its context (as shipped it did not: D22) and still stops gracefully first,
 with a hard `Stop` for the deadline. -/
@@ -62,9 +70,32 @@ theorem exit_handler_order :
     before "time.Sleep" "proxy.Shutdown" exitHandlerEvents = true ∧
     exitHandlerSleepArg = "cfg.Proxy.DeregisterGracePeriod" ∧ exitHandlerShutdownArg = "cfg.Proxy.ShutdownWait" := by decide
 
-/-- The tcp-dynamic refresher, which starts listeners, stops doing so once shutdown has begun (D30). -/
+/-- Walks the flattened body of the refresh loop: every "listen" must be preceded by a "test" of `shuttingDown`
+with no "sleep" in between (a sleep forgets the test: the flag may have been set meanwhile). -/
+def guardedAux : Bool → List String → Bool
+  | _, [] => true
+  | tested, e :: es =>
+    if e == "sleep" then guardedAux false es
+    else if e == "test" then guardedAux true es
+    else if e == "listen" then tested && guardedAux tested es
+    else guardedAux tested es
+
+/-- the loop body twice: the second copy is the next iteration (back edge) -/
+def guarded (l : List String) : Bool := guardedAux false (l ++ l)
+
+/-- The tcp-dynamic refresher, which starts listeners, stops doing so once shutdown has begun (D30): it looks at
+`shuttingDown`, and it does so after it wakes up — on every path through the loop body there is no sleep
+between the test and a listen. -/
 theorem refresher_stops_on_shutdown :
-    refresherStartsListeners = true ∧ refresherLooksAtShuttingDown = true := by decide
+    refresherStartsListeners = true ∧ refresherLooksAtShuttingDown = true ∧
+    refresherLoopEvents.contains "sleep" = true ∧ refresherLoopEvents.contains "listen" = true ∧
+    guarded refresherLoopEvents = true := by decide
+
+-- the walker rejects the two orders that lose the flag, and accepts a test right before each listen
+example : guarded ["test", "sleep", "listen"] = false := by decide
+example : guarded ["sleep", "listen", "test"] = false := by decide
+example : guarded ["sleep", "test", "listen", "listen"] = true := by decide
+example : guarded ["sleep", "test", "listen", "test", "listen"] = true := by decide
 
 /-- The contract the current tree's `gRPCServer.Shutdown` follows, as far as the AST tells. -/
 def codeContract : GrpcContract := if grpcShutdownUsesCtx then .stopsAtDeadline else .ignoresDeadline
